@@ -325,12 +325,17 @@ var opNames = map[byte]string{'P': "pipelined", 'H': "shuffle", 'D': "direct-shu
 // step executes op number opi; it returns false when the history cannot continue.
 func (w *world) step(ctx context.Context, opi int) bool {
 	op := w.rec.Ops[opi]
-	out := func(s string) { w.rec.Outcomes = append(w.rec.Outcomes, op+":"+s) }
 	mech := func(s string) { w.rec.Mech = append(w.rec.Mech, s) }
 	idx := 0
 	if len(op) > 1 {
 		idx = int(op[1] - '0')
 	}
+	// outcome of the op, tagged with what happened to its operand before
+	tag := ""
+	if strings.IndexByte("SPHDX", op[0]) >= 0 {
+		tag = "[" + w.cond(idx) + "]"
+	}
+	out := func(s string) { w.rec.Outcomes = append(w.rec.Outcomes, op+tag+":"+s) }
 	switch op[0] {
 	case 'R':
 		tag := len(w.res)
@@ -592,6 +597,11 @@ func runHistory(idx int, kind, prog string, ops []string) *histRec {
 		w.sess = exec.Start(exec.Local, exec.Parallelism(4))
 	} else {
 		w.sys = vsys.New(2)
+		// keepalive: period 20 ms, time-out 200 ms (default of verifsystem: 60 ms).
+		// The driver notices a killed machine after one keepalive time-out, so this
+		// is what a Kill operation costs; 60 ms gives spurious machine losses when
+		// the host is busy (seen as "lost on 5 consecutive attempts" flakes).
+		w.sys.Keepalive = [3]time.Duration{20 * time.Millisecond, 200 * time.Millisecond, 100 * time.Millisecond}
 		w.sess = exec.Start(exec.Bigmachine(w.sys), exec.Parallelism(4))
 	}
 	ctx := context.Background()
@@ -932,7 +942,7 @@ func main() {
 	recs := make([]*histRec, len(jobs))
 	var skipped int64
 	var mu sync.Mutex
-	ev.Parallel(len(batches), 16, func(b int) {
+	ev.Parallel(len(batches), 20, func(b int) {
 		if r.OverBudget(budget) {
 			mu.Lock()
 			skipped += int64(len(batches[b]))
@@ -1061,22 +1071,23 @@ func main() {
 	}
 
 	layerH := map[string]interface{}{
-		"depth":                    depth,
-		"alphabet":                 "R | S<i> P<i> H<i> X<i> D<i> for i in live results (max 2) | K0 K1 (verifsystem only)",
-		"programs":                 "s1: Const(1 shard,5 rows)->Map; s2: Const(2 shards)->Map; sh: Const(2)->Map->Reduce (result out of a shuffle)",
-		"histories_enumerated":     len(jobs),
-		"histories_executed":       executed,
-		"histories_per_space":      perSpace,
-		"states":                   states.Distinct(),
-		"transitions":              transitions,
-		"distinct_outcomes":        outcomes.Distinct(),
-		"op_outcome_counts":        opOutcomes,
-		"mechanism_counts":         mech,
-		"slowest_history_ms":       maxMs,
-		"signatures_first_pass":    len(sigOrder),
-		"signatures_not_confirmed": unconfirmed,
-		"unconfirmed":              unconfDetail,
-		"rule":                     "every history up to the depth is replayed in a fresh session (state de-duplication is used for counting only); cluster: verifsystem, 2 procs/machine, Parallelism(4), fast retries, DoShuffleReaders=false; a signature is reported only when reproduced 3 of 3 times",
+		"depth":                     depth,
+		"alphabet":                  "R | S<i> P<i> H<i> X<i> D<i> for i in live results (max 2) | K0 K1 (verifsystem only)",
+		"programs":                  "s1: Const(1 shard,5 rows)->Map; s2: Const(2 shards)->Map; sh: Const(2)->Map->Reduce (result out of a shuffle)",
+		"histories_enumerated":      len(jobs),
+		"histories_executed":        executed,
+		"histories_per_space":       perSpace,
+		"states":                    states.Distinct(),
+		"transitions":               transitions,
+		"distinct_outcomes":         len(opOutcomes),
+		"distinct_history_outcomes": outcomes.Distinct(),
+		"op_outcome_counts":         opOutcomes, // executor, op kind [what happened to the operand before] : outcome
+		"mechanism_counts":          mech,
+		"slowest_history_ms":        maxMs,
+		"signatures_first_pass":     len(sigOrder),
+		"signatures_not_confirmed":  unconfirmed,
+		"unconfirmed":               unconfDetail,
+		"rule":                      "every history up to the depth is replayed in a fresh session (state de-duplication is used for counting only); cluster: verifsystem, 2 procs/machine, Parallelism(4), fast retries, DoShuffleReaders=false; a signature is reported only when reproduced 3 of 3 times",
 	}
 
 	// ---- layer S
@@ -1103,7 +1114,7 @@ func main() {
 	cov["states"] = totStates
 	cov["transitions"] = totTrans
 	cov["traces_validated_against_impl"] = totTraces
-	cov["distinct_outcomes"] = outcomes.Distinct()
+	cov["distinct_outcomes"] = len(opOutcomes)
 	r.Assume = append(r.Assume,
 		"verifsystem (in-process bigmachine.System, RPC by function call) stands for a cluster; machine loss = RPCs to the machine fail and its supervisor context is cancelled",
 		"histories on the cluster run free (goroutine timing inside the cluster is not controlled): task placement varies between runs, so the state count of the cluster part is a measured, not a fixed number",
@@ -1127,10 +1138,10 @@ func countSig(recs []*histRec, sig string) int {
 	return n
 }
 
-var idxRe = regexp.MustCompile(`^([A-Z])[0-9]?:`)
+var idxRe = regexp.MustCompile(`^([A-Z])[0-9]?`)
 
-// stripIdx turns "S1:ok" into "S:ok".
-func stripIdx(o string) string { return idxRe.ReplaceAllString(o, "$1:") }
+// stripIdx turns "S1[discarded]:ok" into "S[discarded]:ok".
+func stripIdx(o string) string { return idxRe.ReplaceAllString(o, "$1") }
 
 func last(s []string) string {
 	if len(s) == 0 {
